@@ -15,8 +15,8 @@ import threading
 import time
 from concurrent.futures import ThreadPoolExecutor
 
-HERE = os.path.dirname(os.path.abspath(__file__))
-VERIF = os.path.dirname(os.path.dirname(HERE))
+_HERE = os.path.dirname(os.path.abspath(__file__))
+VERIF = os.path.dirname(os.path.dirname(_HERE))
 sys.path.insert(0, os.path.join(VERIF, "engine"))
 import build as _build  # noqa: E402
 
